@@ -22,6 +22,9 @@ CHECKS['C16'] = dict(cat='exploration', tech='exhaustive integer grid + Hypothes
 CHECKS['C02'] = dict(cat='exploration', tech='Hypothesis-generated configurations; oracle: per-time-step energy-balance identities and an independently coded yearly trapezoid recomputed from the snapshot',
              text='Generated runs over every surface-plant class (sub/supercritical ORC, single/double flash, industrial, heat pump, chiller, district heating) and all cogeneration variants, lifetime 1..100 x time steps 1..100; heat extracted, net electricity, efficiency/COP relations, the cogeneration heat split, the district daily supply/demand balance, every annual kWh series and remaining reservoir heat are recomputed at rel 1e-9.',
              note='Year slices follow the documented sample-index convention (slice i = samples [i*tspy,(i+1)*tspy], short last slice). Add-on and S-DAC-GT runs are outside the quantifier; sampled inputs.', ref='2/C02')
+CHECKS['C05'] = dict(cat='exploration', tech='Hypothesis-generated segment layouts against an independent piecewise-linear geotherm walk (reservoir module run on the read model); generated full runs for the drawdown limit / periodic restart / monotonicity invariants, closed-form percentage-drawdown profile as reference',
+             text='Thousands of 1..4-segment layouts (both sides of the gradient and thickness unit conventions, zero gradients, Tmax cap active or not) compare Trock, effective depth and Tres[0] with a reference walk; generated runs with Maximum Drawdown in (0,1] check that production temperature never falls below the limit, that the profile is periodic with a period consistent with the reported redrilling count (exact count and restart for model 4 without Ramey via the closed form), and that models 3/4 stay below BHT and non-increasing inside a cycle.',
+             note='Input heuristics (gradient <=1 is degC/m, thickness <100 is km) are treated as input grammar. The bound/monotone clause presumes injection temperature below BHT (counted when skipped). One genuine defect found and repaired (F-C05-a, stale redrilling count with district heating).', ref='2/C05')
 NOT_YET = {}
 def main():
     props = [json.loads(l) for l in open(os.path.join(HERE, 'properties.jsonl'))]
